@@ -279,8 +279,12 @@ impl BuildJob<'_> {
             lfd.persist(lfend).map_err(RedoError::opaque_error)?;
         }
         let mut dof = state::File::from_name(&mut ptx, &df.do_dir.join(&df.do_file), true)?;
-        dof.set_static(ptx.state().env())?;
-        dof.save(&mut ptx)?;
+        if !dof.is_generated() {
+            // A .do file that is itself a target keeps its own record:
+            // calling it a source would forget how to rebuild it.
+            dof.set_static(ptx.state().env())?;
+            dof.save(&mut ptx)?;
+        }
         let ps = ptx.commit().map_err(RedoError::opaque_error)?;
         logs::meta("do", state::target_relpath(ps.env(), &t)?.as_str(), None);
 
